@@ -156,6 +156,18 @@ pub fn check(ctx: &mut Ctx) {
     let mo = all_opts();
     ctx.random("mutated-ast", 400, 150_000, 2_000_000, |t| junkgen::gen_mutated(t, &mo), |c, obs| oracle(c, obs, false));
     minimize_src_failure(ctx, "mutated-ast");
+    if ctx.tier == Tier::Thorough {
+        let pairs = all_pairs(true);
+        let mut seeds = vec![];
+        for (i, t) in repo_seed_texts().iter().enumerate() {
+            seeds.push(crate::fuzzglue::encode("total", if i % 2 == 0 { 3 } else { 1 }, 0x10, t));
+        }
+        for (i, (ds, de)) in pairs.iter().enumerate() {
+            seeds.push(crate::fuzzglue::encode("total", i as u8, 0x10, &format!("x\n{ds}rm name='a' unwrap-block{de}\n{{ {ds}rm name='a'{de}\n y\n{ds}/rm{de} }}\n{ds}/rm{de}\né")));
+        }
+        ctx.fuzz_campaign("total", 250_000, 512, seeds, |data| crate::fuzzglue::fuzz_one("total", "C01", data));
+        minimize_src_failure(ctx, "junk-soup");
+    }
 }
 
 /// second shrinking pass over the source text of a failing JunkCase
